@@ -178,9 +178,15 @@ theories/Xattr/XattrPack.vos theories/Xattr/XattrPack.vok theories/Xattr/XattrPa
 theories/Xattr/XattrProofs.vo theories/Xattr/XattrProofs.glob theories/Xattr/XattrProofs.v.beautified theories/Xattr/XattrProofs.required_vo: theories/Xattr/XattrProofs.v theories/Xattr/XattrPack.vo
 theories/Xattr/XattrProofs.vio: theories/Xattr/XattrProofs.v theories/Xattr/XattrPack.vio
 theories/Xattr/XattrProofs.vos theories/Xattr/XattrProofs.vok theories/Xattr/XattrProofs.required_vos: theories/Xattr/XattrProofs.v theories/Xattr/XattrPack.vos
-theories/Properties_C15.vo theories/Properties_C15.glob theories/Properties_C15.v.beautified theories/Properties_C15.required_vo: theories/Properties_C15.v theories/Xattr/XattrPack.vo theories/Xattr/XattrProofs.vo
-theories/Properties_C15.vio: theories/Properties_C15.v theories/Xattr/XattrPack.vio theories/Xattr/XattrProofs.vio
-theories/Properties_C15.vos theories/Properties_C15.vok theories/Properties_C15.required_vos: theories/Properties_C15.v theories/Xattr/XattrPack.vos theories/Xattr/XattrProofs.vos
+theories/Xattr/XattrSort.vo theories/Xattr/XattrSort.glob theories/Xattr/XattrSort.v.beautified theories/Xattr/XattrSort.required_vo: theories/Xattr/XattrSort.v 
+theories/Xattr/XattrSort.vio: theories/Xattr/XattrSort.v 
+theories/Xattr/XattrSort.vos theories/Xattr/XattrSort.vok theories/Xattr/XattrSort.required_vos: theories/Xattr/XattrSort.v 
+theories/Xattr/XattrSortProofs.vo theories/Xattr/XattrSortProofs.glob theories/Xattr/XattrSortProofs.v.beautified theories/Xattr/XattrSortProofs.required_vo: theories/Xattr/XattrSortProofs.v theories/Xattr/XattrSort.vo
+theories/Xattr/XattrSortProofs.vio: theories/Xattr/XattrSortProofs.v theories/Xattr/XattrSort.vio
+theories/Xattr/XattrSortProofs.vos theories/Xattr/XattrSortProofs.vok theories/Xattr/XattrSortProofs.required_vos: theories/Xattr/XattrSortProofs.v theories/Xattr/XattrSort.vos
+theories/Properties_C15.vo theories/Properties_C15.glob theories/Properties_C15.v.beautified theories/Properties_C15.required_vo: theories/Properties_C15.v theories/Xattr/XattrPack.vo theories/Xattr/XattrProofs.vo theories/Xattr/XattrSort.vo theories/Xattr/XattrSortProofs.vo
+theories/Properties_C15.vio: theories/Properties_C15.v theories/Xattr/XattrPack.vio theories/Xattr/XattrProofs.vio theories/Xattr/XattrSort.vio theories/Xattr/XattrSortProofs.vio
+theories/Properties_C15.vos theories/Properties_C15.vok theories/Properties_C15.required_vos: theories/Properties_C15.v theories/Xattr/XattrPack.vos theories/Xattr/XattrProofs.vos theories/Xattr/XattrSort.vos theories/Xattr/XattrSortProofs.vos
 theories/DirBlock/DirBlock.vo theories/DirBlock/DirBlock.glob theories/DirBlock/DirBlock.v.beautified theories/DirBlock/DirBlock.required_vo: theories/DirBlock/DirBlock.v 
 theories/DirBlock/DirBlock.vio: theories/DirBlock/DirBlock.v 
 theories/DirBlock/DirBlock.vos theories/DirBlock/DirBlock.vok theories/DirBlock/DirBlock.required_vos: theories/DirBlock/DirBlock.v 
